@@ -319,7 +319,7 @@ func runShard(p *Prop, tier string, seed int64, sh, nsh int, dir, self string, m
 			if p.AnomalyKnownKey != nil {
 				kk = p.AnomalyKnownKey(key)
 			}
-			cj, _ := json.Marshal(key)
+			cj, _ := json.Marshal(Str(key))
 			m.anomalyViol = append(m.anomalyViol, Violation{Key: key, KnownKey: kk, Case: cj,
 				Msg: fmt.Sprintf("worker %s while executing this case (%s)", kind, clip(tail, 600))})
 		default:
@@ -344,8 +344,8 @@ func runShard(p *Prop, tier string, seed int64, sh, nsh int, dir, self string, m
 // and reports whether it again fails to finish within the CPU budget.
 func confirmSolo(p *Prop, key, dir, self string, sh int) bool {
 	rf := filepath.Join(dir, fmt.Sprintf("confirm.%d.json", sh))
-	cj, _ := json.Marshal(key)
-	b, _ := json.Marshal(map[string]any{"key": key, "case": json.RawMessage(cj)})
+	cj, _ := json.Marshal(Str(key))
+	b, _ := json.Marshal(map[string]any{"key": Str(key), "case": json.RawMessage(cj)})
 	os.WriteFile(rf, b, 0o644)
 	cmd := exec.Command(self, "worker", p.ID, "--replay", rf, "--out", dir, "--shard", strconv.Itoa(1000+sh))
 	done := make(chan error, 1)
@@ -494,7 +494,7 @@ func conclude(p *Prop, tier string, seed int64, m *Merged) int {
 			shown++
 			name := fmt.Sprintf("%s-%016x.json", tier, hashKey(v.Key))
 			path := filepath.Join(rd, name)
-			rb, _ := json.MarshalIndent(map[string]any{"property": p.ID, "seed": seed, "tier": tier, "key": v.Key, "msg": v.Msg, "case": v.Case}, "", " ")
+			rb, _ := json.MarshalIndent(map[string]any{"property": p.ID, "seed": seed, "tier": tier, "key": Str(v.Key), "msg": v.Msg, "case": v.Case}, "", " ")
 			os.WriteFile(path, append(rb, '\n'), 0o644)
 			fmt.Printf("  witness: %s\n    %s\n", strconv.Quote(clip(v.Key, 300)), clip(v.Msg, 1200))
 			fmt.Printf("VIOLATION property=%s replay=%s\n", p.ID, path)
